@@ -44,11 +44,18 @@ def shards(tier):
     return 16
 
 
+def nan_safe(n):
+    """NaN is not equal to itself: compare it by name"""
+    if n[0] == 'num' and n[1] != n[1]:
+        return ('num', 'nan')
+    return n
+
+
 def snapshot(model):
     cells = {}
     for a, c in model.cells.items():
         cells[a] = (getattr(c, 'address', '?'),
-                    monitors.norm(c.value),
+                    nan_safe(monitors.norm(c.value)),
                     c.formula.formula if getattr(c, 'formula', None) is not None
                     else None)
     names = {}
@@ -207,6 +214,9 @@ def run(ctx):
                 go = subject.outcome_of(lambda: ev_o.evaluate(a))
                 gr = subject.outcome_of(lambda: ev_r.evaluate(a))
                 ctx.event('evaluations_compared')
+                if go[0] == 'value' and gr[0] == 'value':
+                    go, gr = ('value', nan_safe(go[1])), \
+                        ('value', nan_safe(gr[1]))
                 if go != gr:
                     bad.append((a, go, gr))
             if bad:
